@@ -166,3 +166,48 @@ def selected_iteration(cnd):
     if cnd[0] == 'discr' and cnd[1][0] == 'maybe' and len(cnd[1]) == 3 and cnd[1][2][0] == 'adaptors':
         return cnd[1][2][1:]
     return None
+
+
+class RuleProxy:
+    """runs another property's rule set inside this one: only the rules in `mapping` are kept, under their new names
+    (clauses shared by two properties are decided once and reported under both)"""
+
+    def __init__(self, ctx, mapping):
+        self._ctx = ctx
+        self._map = mapping
+
+    def __getattr__(self, name):
+        return getattr(self._ctx, name)
+
+    def _r(self, rule):
+        return self._map.get(rule)
+
+    def ok(self, rule, key, detail='', where=None, term=None):
+        if self._r(rule):
+            return self._ctx.ok(self._r(rule), key, detail, where, term)
+
+    def bad(self, rule, key, detail='', where=None, term=None):
+        if self._r(rule):
+            return self._ctx.bad(self._r(rule), key, detail, where, term)
+
+    def unproved(self, rule, key, detail='', where=None, term=None):
+        if self._r(rule):
+            return self._ctx.unproved(self._r(rule), key, detail, where, term)
+
+    def info(self, rule, key, detail='', where=None):
+        if self._r(rule):
+            return self._ctx.info(self._r(rule), key, detail, where)
+
+    def check(self, cond, rule, key, ok_detail='', bad_detail='', where=None):
+        if self._r(rule):
+            return self._ctx.check(cond, self._r(rule), key, ok_detail, bad_detail, where)
+        return cond
+
+    def anchor(self, rule, fid):
+        return self._ctx.prog.by_id.get(fid) if not self._r(rule) else self._ctx.anchor(self._r(rule), fid)
+
+    def floor(self, name, count, minimum):
+        return None
+
+    def sample(self, s):
+        return None
